@@ -47,6 +47,9 @@ type End struct {
 	rdl      time.Time
 	wdl      time.Time     // write deadline (used only by bounded stream links)
 	space    chan struct{} // signalled when this end's queue shrinks (bounded stream links)
+
+	// PreWrite, when set (before the end is used), is called at the start of every Write of this end.
+	PreWrite func(b []byte)
 }
 
 // Link is a pair of ends.
@@ -171,6 +174,10 @@ func (e *End) Write(p []byte) (int, error) {
 	}
 	b := append([]byte(nil), p...)
 	l := e.link
+	if e.PreWrite != nil {
+		// a slow interface: the datagram leaves (and is captured) only after this returns; no lock is held
+		e.PreWrite(b)
+	}
 	// bounded stream link: wait for room at the receiving end
 	for e.stream {
 		l.mu.Lock()
